@@ -29,6 +29,29 @@ fn main() {
     util::api::quiet_panics();
     let seed: u64 = std::env::var("VERIF_SEED").ok().and_then(|s| s.parse().ok()).unwrap_or(0);
     let code = match args[1].as_str() {
+        "tree" if args.len() >= 3 => {
+            // debugging aid: print the tree of a source file (or literal text with --text)
+            let src = if args[2] == "--text" { args[3].replace("\\n", "\n") } else { std::fs::read_to_string(&args[2]).expect("read") };
+            let lib = args.iter().any(|a| a == "--lib");
+            match util::api::parse_simple(&src, lib, args.iter().any(|a| a == "--incomplete")) {
+                Ok(Ok((t, _))) => {
+                    let ix = util::tree::index(&t).expect("index");
+                    for (i, n) in ix.nodes.iter().enumerate() {
+                        let sp = util::tree::trim_span(&ix, i);
+                        println!("{}{}{} {}", " ".repeat(n.depth), n.kind, if n.in_ws { "~" } else { "" }, sp.map(|(b, e)| format!("{:?}", &src[b..e.min(src.len())])).unwrap_or_default());
+                    }
+                    0
+                }
+                Ok(Err(e)) => {
+                    println!("error: {}", util::api::err_sig(&e));
+                    1
+                }
+                Err(p) => {
+                    println!("panic: {}", p);
+                    1
+                }
+            }
+        }
         "list" => {
             for p in props::ALL {
                 println!("{}", p);
